@@ -73,6 +73,14 @@ impl Report {
         if out.stalls_fired > 0 {
             *self.faults.entry("stall".into()).or_insert(0) += out.stalls_fired;
         }
+        let unwound = out.calls.iter().filter(|c| matches!(c.res, crate::sim::Res::UserPanic)).count() as u64;
+        if unwound > 0 {
+            *self.faults.entry("checker_unwound_in_call".into()).or_insert(0) += unwound;
+            let resumed = out.calls.iter().skip_while(|c| !matches!(c.res, crate::sim::Res::UserPanic)).skip(1).count() as u64;
+            if resumed > 0 {
+                *self.faults.entry("calls_after_an_unwound_call".into()).or_insert(0) += resumed;
+            }
+        }
     }
 }
 
